@@ -8,7 +8,7 @@
    Part F: entry points. *)
 From Coq Require Import List ZArith NArith Bool Arith Lia.
 From PP Require Import Model.Str Model.Results Model.Prog Model.Core Model.Entry Model.LR Model.LRT.
-From PP Require Import Proofs.Packrat Proofs.EqDec Proofs.PackratCore.
+From PP Require Import Proofs.Packrat Proofs.EqDec Proofs.PackratCore Proofs.EachFacts.
 Import ListNotations.
 
 (* ------------------------------------------------------------------------------------------- *)
@@ -550,6 +550,75 @@ Proof.
   destruct failon as [fo|]; [|exact Hafter].
   apply K_can_parse_next; [exact Hf|]. intros [|]; [apply Hkk|exact Hafter].
 Qed.
+
+(* ---- Each ---- *)
+Definition fwP (e : expr) : Prop := fwb e = true.
+Lemma fwP_copy b n : fwP b -> fwP (named_copy b n).
+Proof. unfold fwP. destruct b; cbn; intros H; exact H. Qed.
+Lemma fwP_rep a i z b ne : fwP (Rep a i z b ne) -> fwP (snd (rep_operand (Rep a i z b ne) b)).
+Proof.
+  intros H. assert (Hb : fwP b).
+  { unfold fwP in *. cbn [fw] in H. rewrite ?fwl_fix in H. repeat (apply andb_prop in H as [H ?]). assumption. }
+  unfold rep_operand. destruct (rsname _); cbn [snd]; [apply fwP_copy|]; exact Hb.
+Qed.
+Lemma fwP_opt a i dflt b : fwP (Enh a i (EOpt dflt) b) -> fwP b.
+Proof. unfold fwP. cbn [fw]. rewrite ?fwl_fix. intros H. repeat (apply andb_prop in H as [H ?]). assumption. Qed.
+Lemma fwP_Forall l : forallb fwb l = true -> Forall fwP l.
+Proof. intros H. apply Forall_forall. rewrite forallb_forall in H. exact H. Qed.
+
+Notation entsF := (entsP fwP).
+
+Lemma K_each_round es : Forall fwP es -> forall cands tl reqd opt mo nf fatals kk,
+  entsF cands -> entsF reqd -> entsF opt -> Forall fwP mo ->
+  (forall tl' reqd' opt' mo' nf' fs', entsF reqd' -> entsF opt' -> Forall fwP mo' -> K (kk tl' reqd' opt' mo' nf' fs')) ->
+  K (each_round (fail_of k) es s cands tl reqd opt mo nf fatals kk).
+Proof.
+  intros Hw. induction cands as [|en rest IH]; intros tl reqd opt mo nf fatals kk Hc Hr Ho Hm Hkk; cbn [each_round].
+  - apply Hkk; assumption.
+  - inversion Hc as [|? ? Hen Hrest]; subst.
+    apply K_try_parse; [exact Hen|]. intros [l r|x|].
+    + assert (Hm' : Forall fwP (mo ++ [each_order es en])).
+      { apply Forall_app. split; [exact Hm|]. constructor; [|constructor]. apply each_order_P; assumption. }
+      destruct (mem_cls (ee_cls en) reqd); [apply IH; try assumption; apply entsP_remove; assumption|].
+      destruct (mem_cls (ee_cls en) opt); [apply IH; try assumption; apply entsP_remove; assumption|].
+      apply IH; assumption.
+    + destruct (is_fatal (xk x)); [apply IH; assumption|].
+      destruct (is_pe (xk x)); [apply IH; assumption|apply K_fail].
+    + ret.
+Qed.
+
+Lemma K_each_loop es multis : Forall fwP es -> entsF multis ->
+  forall fuel tl reqd opt mo kk, entsF reqd -> entsF opt -> Forall fwP mo ->
+  (forall reqd' opt' mo' fs', entsF reqd' -> entsF opt' -> Forall fwP mo' -> K (kk reqd' opt' mo' fs')) ->
+  K (each_loop (fail_of k) es s fuel tl reqd opt multis mo kk).
+Proof.
+  intros Hw Hmu. induction fuel as [|f IH]; intros tl reqd opt mo kk Hr Ho Hm Hkk; cbn [each_loop]; [ret|].
+  apply K_each_round; try assumption.
+  - apply entsP_app; [exact Hr|]. apply entsP_app; assumption.
+  - intros tl' reqd' opt' mo' nf' fs' Hr' Ho' Hm'.
+    destruct (Nat.eqb nf' _); [apply Hkk; assumption|].
+    destruct (_ && _); [ret|]. apply IH; assumption.
+Qed.
+
+Lemma K_each_go2 d : forall mo loc acc, Forall fwP mo -> K (each_go2 k s d mo loc acc).
+Proof.
+  induction mo as [|c rest IH]; intros loc acc Hm; cbn [each_go2]; [apply Hk|].
+  inversion Hm as [|? ? Hc Hr]; subst. unfold call. callc Hc.
+  - apply IH. exact Hr.
+  - apply K_fail.
+  - ret.
+Qed.
+
+Lemma K_each_impl es info loc d : forallb fwb es = true -> K (each_impl k es info s loc d).
+Proof.
+  intros Hw0. pose proof (fwP_Forall es Hw0) as Hw.
+  destruct (each_groups_P fwP fwP_rep fwP_opt es info Hw) as (H1 & H2 & H3 & H4 & H5).
+  unfold each_impl. apply K_each_loop; try assumption; try (apply entsP_app; assumption); [constructor|].
+  intros reqd' opt' mo' fs' Hr' Ho' Hm'.
+  destruct (pick_fatal fs') as [fx|]; [apply K_fail|].
+  destruct reqd'; [|apply K_fail].
+  apply K_each_go2. apply Forall_app. split; [exact Hm'|]. apply each_unmatched_P. exact Hw.
+Qed.
 End Impl.
 
 Lemma env_fw id c : nth_error G id = Some c -> fwb c = true.
@@ -607,7 +676,7 @@ Proof.
         - apply K_or_go2; assumption. }
       destruct (forallb (fun c => callpre (attrs_of c)) es); [|apply Hstart].
       apply K_pre_parse; [apply Hwe|exact Hfail|exact Hstart].
-    + apply Hfail.
+    + apply K_each_impl; assumption.
   - apply andb_prop in Hw as [Hi Hc].
     assert (Hpass : forall loc, K (call c s loc d false (fun o =>
               match o with
